@@ -344,6 +344,15 @@ Definition c02_functional (c : rs_case) : bool :=
    carrying an error was delivered *)
 Definition reported_closed (c : rs_case) : bool := rc_closed c && existsb (fun x => x) (rc_closedev c).
 
+(* from the history alone: is the stream on a live connection at the end? *)
+Fixpoint ends_up (up : bool) (evs : list revt) : bool :=
+  match evs with
+  | [] => up
+  | ELinkDown _ :: r => ends_up false r
+  | EResume ROk :: r => ends_up true r
+  | _ :: r => ends_up up r
+  end.
+
 Definition c02_noloss (c : rs_case) : bool :=
   if reported_closed c then true
   else
@@ -353,7 +362,10 @@ Definition c02_noloss (c : rs_case) : bool :=
         && (N.of_nat (length (rc_ledger c)) =? fst (fst (rc_final c)))
         && forallb (fun id => pts_eqb (ledger_pts id (rc_ledger c) ++ buf_pts id (snd (rc_final c)))
                                       (racc_pts id (rc_evs c) (rc_rets c))) (rids (rc_evs c))
-    | _ => true
+    | _ =>
+        (* chunks left in the storage of an open stream on a live connection after the broker has
+           acknowledged everything it received: stored, never retransmitted - lost *)
+        negb (ends_up true (rc_evs c)) || rc_closed c
     end.
 
 (* chunks stored (unacknowledged) when incarnation k died are received again in a later one *)
